@@ -13,7 +13,7 @@
                            exception, a float or str, falling off the end); ext interprets calls of
                            names that are not builtins
      a2a_guard f           THE decidable guard (evaluated on every program of the correspondence
-                           run): no name starts with `_`; bool / int constants only; no `**`; a
+                           run): no name starts with `__`, `_temptup`, `_iftarg`, `_forit`; bool / int constants only; no `**`; a
                            subscript is indexed by a constant or by the variable of an enclosing loop
                            over range / constants; no call of len / sum / all / any / min / max / abs /
                            print / ord / chr, range only as a loop iterator; a tuple target only with
@@ -33,10 +33,10 @@
      normal_form l         only `name = e`, `return e` and expression statements are left
    Direction: "normalised has a value  ==>  source has the same value".  The converse is FALSE
    inside the guard (C01a_forward_refuted: a name assigned in one branch only) and the unguarded
-   statement is still FALSE (C01a_preserves_refuted and three witnesses the current library accepts
-   and mis-translates: a tuple of constants re-assigned under an if and indexed by a variable, and
-   user variables named like the temporaries).  The five witnesses of the first round are repaired
-   in /repo (cc7fed2 .. d025bfb) and are now positive Examples at the end. *)
+   statement is still FALSE of the model over UNTYPED values (C01a_preserves_refuted: all(a) over
+   integers), but no program the library ACCEPTS is known to be mis-translated any more: the eight
+   witnesses of the first two rounds are repaired in /repo (cc7fed2 .. e979369) and are positive
+   Examples / rejection Examples at the end. *)
 From Coq Require Import List Bool NArith ZArith Arith String.
 From QV Require Import M_A2A P_A2A.
 Import ListNotations.
@@ -63,9 +63,9 @@ Print Assumptions C01a_conforms_check.
 
 (* pass by pass *)
 (* ConstantFolder: the folded list has exactly the outcome of the original (both directions) *)
-Theorem C01a_fold_preserves : forall plen ext okn lv b b',
-  forallb (gstmt okn plen lv) b = true -> fold_list b = Ok b' ->
-  (forall rho, exec_list ext b' rho = exec_list ext b rho) /\ forallb (gstmt okn plen lv) b' = true.
+Theorem C01a_fold_preserves : forall plen pbool ext okn lv b b',
+  forallb (gstmt okn plen pbool lv) b = true -> fold_list b = Ok b' ->
+  (forall rho, exec_list ext b' rho = exec_list ext b rho) /\ forallb (gstmt okn plen pbool lv) b' = true.
 Proof. exact fold_list_sound. Qed.
 Print Assumptions C01a_fold_preserves.
 
@@ -73,9 +73,9 @@ Print Assumptions C01a_fold_preserves.
 Theorem C01a_multi_preserves : forall plen,
   (forall a, prot plen a = true -> user_name a = true) ->
   forall rho0, (forall a n, plen a = Some n -> exists vs, rho0 a = Some (VTup vs) /\ List.length vs = n) ->
-  forall ext lv b b',
-  forallb (gstmt user_name plen lv) b = true -> multi_list b = Ok b' ->
-  forallb (gstmt visible plen lv) b' = true /\
+  forall pbool ext lv b b',
+  forallb (gstmt user_name plen pbool lv) b = true -> multi_list b = Ok b' ->
+  forallb (gstmt visible plen pbool lv) b' = true /\
   bsim plen rho0 user_name (exec_list ext b) (exec_list ext b').
 Proof. exact multi_list_sound. Qed.
 Print Assumptions C01a_multi_preserves.
@@ -85,34 +85,31 @@ Print Assumptions C01a_multi_preserves.
 Theorem C01a_rewriter_preserves : forall plen,
   (forall a, prot plen a = true -> user_name a = true) ->
   forall rho0, (forall a n, plen a = Some n -> exists vs, rho0 a = Some (VTup vs) /\ List.length vs = n) ->
+  forall pbool, (forall a, pbool a = true -> exists vs, rho0 a = Some (VTup vs) /\ forallb is_vbool vs = true) ->
   forall ext b st l st',
-  forallb (gstmt visible plen []) b = true -> forallb notup b = true -> st_ok plen st ->
-  rw_list rw_fuel st b = Ok (l, st') -> rw_post plen rho0 ext st l st' (exec_list ext b).
+  forallb (gstmt visible plen pbool []) b = true -> forallb notup b = true -> st_ok plen st ->
+  rw_list rw_fuel st b = Ok (l, st') -> rw_post plen rho0 pbool ext st l st' (exec_list ext b).
 Proof. exact rw_list_sound. Qed.
 Print Assumptions C01a_rewriter_preserves.
 
-(* the unguarded statement is false of the faithful model *)
+(* the unguarded statement is false of the faithful model over untyped values *)
 Theorem C01a_preserves_refuted :
   exists f rho b' v v', a2a f = Ok b' /\ run no_ext b' rho = Some v /\
                         run no_ext (f_body f) rho = Some v' /\ v <> v'.
 Proof. exact a2a_preserves_refuted. Qed.
 Print Assumptions C01a_preserves_refuted.
 
-(* t = (True, False); if c: t = (False, True); return t[u[0]] : the constants recorded for a name
-   are flow-insensitive and a tuple of CONSTANTS is still inlined (the current /repo accepts and
-   mis-translates this program) *)
-Theorem C01a_refuted_const_tuple_flow : differ wit_constflow wit_constflow_env.
-Proof. exact wit_constflow_differ. Qed.
-Print Assumptions C01a_refuted_const_tuple_flow.
+(* the witness: all(a) over integers becomes a[0] and a[1] (3, not True).  The translator rejects
+   the program (operands of `and` must be bool): the statement is false of the UNTYPED model, no
+   accepted program is known to be mis-translated *)
+Theorem C01a_refuted_all_over_ints : differ wit_all wit_all_env.
+Proof. exact wit_all_differ. Qed.
+Print Assumptions C01a_refuted_all_over_ints.
 
-(* user variables named like the rewriter's temporaries: _temptup, _iftargN *)
-Theorem C01a_refuted_reserved_temptup : differ wit_temptup wit_temptup_env.
-Proof. exact wit_temptup_differ. Qed.
-Print Assumptions C01a_refuted_reserved_temptup.
-
-Theorem C01a_refuted_reserved_iftarg : differ wit_iftarg wit_iftarg_env.
-Proof. exact wit_iftarg_differ. Qed.
-Print Assumptions C01a_refuted_reserved_iftarg.
+(* the reserved prefixes _temptup / _iftarg / _forit are rejected before any pass *)
+Theorem C01a_reserved_rejected : forall f b', a2a f = Ok b' -> fun_reserved f = false.
+Proof. exact a2a_ok_not_reserved. Qed.
+Print Assumptions C01a_reserved_rejected.
 
 (* inside the guard the converse of C01a_backward fails *)
 Theorem C01a_forward_refuted :
@@ -203,4 +200,19 @@ Proof. apply conforms_check. vm_compute. reflexivity. Qed.
 Example ex2_rewritten : match a2a ex2_fun with Ok b' => run no_ext b' ex2_env | _ => None end = Some (VInt 5).
 Proof. vm_compute. reflexivity. Qed.
 Example ex2_source : run no_ext (f_body ex2_fun) ex2_env = Some (VInt 5).
+Proof. vm_compute. reflexivity. Qed.
+
+(* the three witnesses of the second round (repaired by cbb039f, e979369) *)
+Example repaired_const_tuple_flow : agree wit_constflow wit_constflow_env (VBool true).
+Proof. exact wit_constflow_agree. Qed.
+Example rejected_reserved_temptup : a2a wit_temptup = Raise.
+Proof. exact wit_temptup_rejected. Qed.
+Example rejected_reserved_iftarg : a2a wit_iftarg = Raise.
+Proof. exact wit_iftarg_rejected. Qed.
+(* a single underscore is an ordinary name *)
+Example underscore_names_in_guard :
+  a2a_guard (mkfun [("_a", Some (EName "bool"))] (Some (EName "bool"))
+                   [SAssign (TName "_x") (EUnOp Not (EName "_a"));
+                    SIf (EName "_x") [SAssign (TName "_x") (EName "_a")] [];
+                    SReturn (EName "_x")]) = true.
 Proof. vm_compute. reflexivity. Qed.
